@@ -307,9 +307,9 @@ def big_dead(tier, seed, jobs):
     return len(sc), fails
 
 
-def nested_child(args, timeout=300):
+def nested_child(args, timeout=1200):
     try:
-        r = subprocess.run([D.BIN, "nested"] + args, stdout=subprocess.PIPE, stderr=subprocess.PIPE, timeout=timeout)
+        r = subprocess.run([D.BIN] + (args if args[0] == "threads" else ["nested"] + args), stdout=subprocess.PIPE, stderr=subprocess.PIPE, timeout=timeout)
     except subprocess.TimeoutExpired:
         return {"error": "timeout", "_code": None}
     j = {"_code": r.returncode}
@@ -320,6 +320,14 @@ def nested_child(args, timeout=300):
 
 
 def judge_nested(prop, args, j):
+    if args[0] == "threads":
+        what = f"{args[2]} threads, each building, tracing and releasing {args[4]} fully recorded rings of its own (real threads: a stress run, not a controlled schedule)"
+        if j.get("type") != "threads" or j["_code"] != 0:
+            return ("crash", "independent-threads-crashed", what + f": the process did not complete (code {j['_code']})")
+        if j["failures"]:
+            f0 = j["failures"][0]
+            return ("not-collected", "independent-threads-interfere", what + f": thread {f0['thread']}, round {f0['round']}: {f0['what']} ({len(j['failures'])} threads failed)")
+        return None
     what = "nested teardown of groups of sizes " + args[1] if args[0] == "--sizes" else f"last outside handle released by a thread-local destructor at thread exit ({args[1]} registration)"
     if j.get("type") != "nested" or j["_code"] != 0:
         return ("crash", "nested-teardown-crashed", what + f": the process did not complete (code {j['_code']}, {j.get('error', 'no result')})")
@@ -350,6 +358,8 @@ def nested_scenarios(prop, tier, seed, jobs):
     sc.append(["--sizes", ",".join(str(rng.randrange(2, 30)) for _ in range(40))])
     if prop in ("C03", "C10"):
         sc += [["--tls", "early"], ["--tls", "late"]]
+    if prop == "C03":
+        sc += [["threads", "--threads", "4", "--rounds", "40000", "--seed", str(seed)], ["threads", "--threads", "12", "--rounds", "15000" if tier == "quick" else "200000", "--seed", str(seed + 1)]]
     fail = None
     with cf.ThreadPoolExecutor(max_workers=min(jobs, 8)) as ex:
         for a, j in zip(sc, ex.map(nested_child, sc)):
@@ -533,7 +543,7 @@ def replay(rec, path, quiet=False):
         with open(path2, "w") as f:
             f.write(rec["history_line"] + "\n")
         env = dict(os.environ, MIRIFLAGS="-Zmiri-disable-isolation -Zmiri-ignore-leaks", CARGO_NET_OFFLINE="true")
-        p = subprocess.run(["cargo", "+nightly", "miri", "run", "--offline", "--", "replay-many", "--file", path2], cwd=D.SIM, env=env, stdout=subprocess.PIPE, stderr=subprocess.PIPE, text=True)
+        p = subprocess.run(["cargo", "+nightly", "miri", "run", "--offline"] + (["--target", rec["target"]] if rec.get("target") else []) + ["--", "replay-many", "--file", path2], cwd=D.SIM, env=env, stdout=subprocess.PIPE, stderr=subprocess.PIPE, text=True)
         os.remove(path2)
         if "Undefined Behavior" in p.stderr:
             if not quiet:
